@@ -403,28 +403,123 @@ fn collect_dollar_edits(
     Ok(())
 }
 
-/// Returns the instantiated transcriber text.
-fn instantiate_macro(src: &Source, items: &[&syn::Item], name: &str, args: &str) -> Result<String, String> {
+enum MElem {
+    Single(String),
+    Rep(String),
+}
+
+fn parse_matcher(ts: TokenStream) -> Option<Vec<MElem>> {
+    let parts = split_top_commas(ts);
+    let mut out = vec![];
+    for p in parts {
+        let v: Vec<TokenTree> = p.into_iter().collect();
+        match (v.first(), v.get(1), v.get(2), v.get(3)) {
+            (Some(TokenTree::Punct(d)), Some(TokenTree::Ident(n)), Some(TokenTree::Punct(c)), Some(TokenTree::Ident(_)))
+                if d.as_char() == '$' && c.as_char() == ':' && v.len() == 4 =>
+            {
+                out.push(MElem::Single(n.to_string()));
+            }
+            // `$( $x:frag ),+` / `,*` (the separator comma was consumed by the split: the group is followed by + or *)
+            (Some(TokenTree::Punct(d)), Some(TokenTree::Group(g)), _, _) if d.as_char() == '$' && g.delimiter() == Delimiter::Parenthesis => {
+                let inner: Vec<TokenTree> = g.stream().into_iter().collect();
+                match (inner.first(), inner.get(1)) {
+                    (Some(TokenTree::Punct(d2)), Some(TokenTree::Ident(n))) if d2.as_char() == '$' => out.push(MElem::Rep(n.to_string())),
+                    _ => return None,
+                }
+            }
+            // the `+` / `*` that follows a `$(..),` group after the comma split
+            (Some(TokenTree::Punct(pl)), None, _, _) if pl.as_char() == '+' || pl.as_char() == '*' => {}
+            _ => return None,
+        }
+    }
+    Some(out)
+}
+
+fn subst(ts: TokenStream, binds: &HashMap<String, TokenStream>, reps: &HashMap<String, Vec<TokenStream>>) -> Result<TokenStream, String> {
+    let tts: Vec<TokenTree> = ts.into_iter().collect();
+    let mut out: Vec<TokenTree> = vec![];
+    let mut i = 0;
+    while i < tts.len() {
+        match &tts[i] {
+            TokenTree::Punct(p) if p.as_char() == '$' => match tts.get(i + 1) {
+                Some(TokenTree::Ident(id)) => {
+                    let name = id.to_string();
+                    if name == "crate" {
+                        out.push(TokenTree::Ident(proc_macro2::Ident::new("crate", id.span())));
+                    } else {
+                        let v = binds.get(&name).ok_or_else(|| format!("unbound macro variable ${}", name))?;
+                        out.extend(v.clone());
+                    }
+                    i += 2;
+                    continue;
+                }
+                Some(TokenTree::Group(g)) if g.delimiter() == Delimiter::Parenthesis => {
+                    // repetition block: $( body ) [sep] (*|+)
+                    let mut j = i + 2;
+                    let mut sep: Option<TokenTree> = None;
+                    if let Some(TokenTree::Punct(q)) = tts.get(j) {
+                        if q.as_char() != '*' && q.as_char() != '+' {
+                            sep = Some(tts[j].clone());
+                            j += 1;
+                        }
+                    }
+                    match tts.get(j) {
+                        Some(TokenTree::Punct(q)) if q.as_char() == '*' || q.as_char() == '+' => {}
+                        _ => return Err("malformed macro repetition".into()),
+                    }
+                    // which repeated variable drives the block
+                    let body_s = g.stream().to_string();
+                    let var = reps.keys().find(|k| body_s.contains(&format!("$ {}", k)) || body_s.contains(&format!("${}", k)));
+                    let var = var.ok_or("repetition block without a repeated variable")?.clone();
+                    let vals = reps.get(&var).unwrap();
+                    for (k, val) in vals.iter().enumerate() {
+                        let mut b2 = binds.clone();
+                        b2.insert(var.clone(), val.clone());
+                        if k > 0 {
+                            if let Some(s) = &sep {
+                                out.push(s.clone());
+                            }
+                        }
+                        out.extend(subst(g.stream(), &b2, reps)?);
+                    }
+                    i = j + 1;
+                    continue;
+                }
+                _ => return Err("unsupported `$` form in macro transcriber".into()),
+            },
+            TokenTree::Group(g) => {
+                let inner = subst(g.stream(), binds, reps)?;
+                let mut ng = proc_macro2::Group::new(g.delimiter(), inner);
+                ng.set_span(g.span());
+                out.push(TokenTree::Group(ng));
+            }
+            other => out.push(other.clone()),
+        }
+        i += 1;
+    }
+    Ok(out.into_iter().collect())
+}
+
+/// Returns the instantiated transcriber text (rule R8). `def_items`: where the macro_rules definition lives (may be another
+/// file); `items`: where the invocation must be found.
+fn instantiate_macro(def_items: &[&syn::Item], items: &[&syn::Item], name: &str, args: &str) -> Result<String, String> {
     let args_ts = TokenStream::from_str(args).map_err(|e| format!("macro args: {}", e))?;
-    let arg_list: Vec<String> = {
-        // need text of each arg: re-slice from `args` via spans of a fresh lex
-        let parts = split_top_commas(args_ts);
-        parts.iter().map(|p| p.to_string()).collect()
-    };
-    // invocation must exist
-    let want = squash(args);
+    let arg_list: Vec<TokenStream> = split_top_commas(args_ts.clone());
+    let want = squash(&args_ts.to_string());
     let mut invoked = false;
     let mut def: Option<&syn::ItemMacro> = None;
+    for it in def_items {
+        if let syn::Item::Macro(m) = it {
+            if m.mac.path.is_ident("macro_rules") && m.ident.as_ref().map(|i| i == name).unwrap_or(false) {
+                def = Some(m);
+            }
+        }
+    }
     for it in items {
         if let syn::Item::Macro(m) = it {
-            if m.mac.path.is_ident("macro_rules") {
-                if m.ident.as_ref().map(|i| i == name).unwrap_or(false) {
-                    def = Some(m);
-                }
-            } else if m.mac.path.is_ident(name) {
+            if m.mac.path.is_ident(name) {
                 let got = squash(&m.mac.tokens.to_string());
-                let got = got.trim_end_matches(',').to_string();
-                if got == squash(&TokenStream::from_str(args).unwrap().to_string()) || got == want {
+                if got.trim_end_matches(',') == want {
                     invoked = true;
                 }
             }
@@ -434,48 +529,45 @@ fn instantiate_macro(src: &Source, items: &[&syn::Item], name: &str, args: &str)
     if !invoked {
         return Err(format!("invocation {}!({}) not found", name, args));
     }
-    // rules: (matcher) => {transcriber} ; ...
     let tts: Vec<TokenTree> = def.mac.tokens.clone().into_iter().collect();
     let mut i = 0;
     let mut last_err = String::from("no rule");
-    while i + 3 < tts.len() + 1 {
+    while i < tts.len() {
         let (m, t) = match (&tts.get(i), &tts.get(i + 3)) {
             (Some(TokenTree::Group(m)), Some(TokenTree::Group(t))) => (m, t),
             _ => break,
         };
-        // parse matcher: $name:frag separated by commas
-        let parts = split_top_commas(m.stream());
-        let mut names = vec![];
-        let mut ok = true;
-        for p in &parts {
-            let v: Vec<TokenTree> = p.clone().into_iter().collect();
-            match (v.first(), v.get(1), v.get(2), v.get(3)) {
-                (Some(TokenTree::Punct(d)), Some(TokenTree::Ident(n)), Some(TokenTree::Punct(c)), Some(TokenTree::Ident(_)))
-                    if d.as_char() == '$' && c.as_char() == ':' && v.len() == 4 =>
-                {
-                    names.push(n.to_string());
-                }
-                _ => {
-                    ok = false;
-                    last_err = "matcher outside supported subset (R8): only `$x:frag, ..`".into();
+        match parse_matcher(m.stream()) {
+            None => last_err = "matcher outside the supported subset (R8): `$x:frag, ..` with at most one trailing `$($y:frag),+`".into(),
+            Some(elems) => {
+                let singles = elems.iter().filter(|e| matches!(e, MElem::Single(_))).count();
+                let rep = elems.iter().find_map(|e| if let MElem::Rep(n) = e { Some(n.clone()) } else { None });
+                let fits = match &rep {
+                    None => arg_list.len() == singles,
+                    Some(_) => arg_list.len() > singles,
+                };
+                if fits {
+                    let mut binds = HashMap::new();
+                    let mut reps = HashMap::new();
+                    let mut k = 0;
+                    for e in &elems {
+                        match e {
+                            MElem::Single(n) => {
+                                binds.insert(n.clone(), arg_list[k].clone());
+                                k += 1;
+                            }
+                            MElem::Rep(n) => {
+                                reps.insert(n.clone(), arg_list[k..].to_vec());
+                                k = arg_list.len();
+                            }
+                        }
+                    }
+                    return Ok(subst(t.stream(), &binds, &reps)?.to_string());
+                } else {
+                    last_err = format!("arity mismatch: rule takes {}{}, got {}", singles, if rep.is_some() { "+" } else { "" }, arg_list.len());
                 }
             }
         }
-        if ok && names.len() == arg_list.len() {
-            let mut binds = HashMap::new();
-            for (n, a) in names.iter().zip(arg_list.iter()) {
-                binds.insert(n.clone(), a.clone());
-            }
-            let mut edits = Edits::new();
-            collect_dollar_edits(t.stream(), &binds, &mut edits)?;
-            let r = t.span().byte_range();
-            // strip the outer delimiters of the transcriber
-            let inner = (r.start + 1)..(r.end - 1);
-            return edits.apply(&src.text, inner);
-        } else if ok {
-            last_err = format!("arity mismatch: rule takes {}, got {}", names.len(), arg_list.len());
-        }
-        // skip `=> {..} ;`
         i += 4;
         if let Some(TokenTree::Punct(p)) = tts.get(i) {
             if p.as_char() == ';' {
@@ -1418,13 +1510,24 @@ fn handle(req: &Value, features: &[String], cache: &mut HashMap<String, Result<S
     let mut cur_src: *const Source = base;
     for (i, sel) in path.iter().enumerate() {
         if let Some(rest) = sel.strip_prefix("macro ") {
+            let (rest, def_file) = match rest.split_once(" @ ") {
+                Some((r, f)) => (r, Some(f.trim().to_string())),
+                None => (rest, None),
+            };
             let (name, args) = rest
                 .split_once('(')
                 .ok_or_else(|| format!("bad macro selector `{}`", sel))?;
             let args = args.trim_end().strip_suffix(')').ok_or("macro selector must end with )")?;
             let s: &Source = unsafe { &*cur_src };
             let items = live_items(s.file.items.iter(), features);
-            let text = instantiate_macro(s, &items, name.trim(), args)?;
+            let text = match &def_file {
+                Some(f) => {
+                    let dsrc = std::fs::read_to_string(f).map_err(|e| format!("read {}: {}", f, e)).and_then(load)?;
+                    let ditems = live_items(dsrc.file.items.iter(), features);
+                    instantiate_macro(&ditems, &items, name.trim(), args)?
+                }
+                None => instantiate_macro(&items, &items, name.trim(), args)?,
+            };
             let ns = Box::new(load(text)?);
             cur_src = &*ns;
             owned.push(ns);
